@@ -31,12 +31,17 @@ RULE = ('2-3 engines, histories of 6-24 operations each over {atom, assert_fact/
         '(shared inside one fact, partially bound) under one key, optionally reached through a rule; 3-6 generator slots on that '
         'predicate opened / advanced / finished in non-nested order (mostly oldest first: closed, dropped, replaced, exhausted '
         'while a younger one stays suspended, then a new one), query patterns from a small pool of constants (clash / compatible). '
-        'Family SC: K generators (3-8 with depths 2-14, compared with the Coq model; K in {5,20,40} with depths 100-200, metamorphic '
+        'Family SH: the SAME Python objects given to 2-3 engines of one run - function objects (*args / (first, *rest) / fixed '
+        'signature; def, bound method, callable instance, functools.wraps, partial) registered under different styles (arity None / -1 / k), '
+        'tuples of argument term objects asserted through the three assert APIs, one script string - with clear() at any moment and '
+        'queries of the registered names at all arities 0..3. '
+        'Family SC: K generators (3-8 with depths 2-14, compared with the Coq model; K in {5,20,40} with depths 100-200 and K = 150 with '
+        'depths 200-250 (about 65000 calls alive at once; thorough also 100/250/400 generators), metamorphic '
         'oracle only) suspended inside recursive predicates at the same time, advanced in chunks in random order, then probe '
         'queries (shallow and deep), closes oldest-first / random, more probes. Non-trivial: (mixed) two engines hold different '
         'contents under one predicate name and at least two generators are suspended on an answer simultaneously; (NL) >= 3 '
         'generators on one predicate and a non-LIFO finish followed by a new start while the younger one is live; (SC) >= 3 '
-        'suspended at once. Distinct by hash of the case.')
+        'suspended at once; (SH) a function object registered on two engines under different styles or an argument tuple asserted into two engines. Distinct by hash of the case.')
 TRUSTED_BASE = [
     'Coq 8.16.1 kernel (coqc); vm_compute for the in-Coq evaluation of the model on every case',
     'no axioms: all C04 theorems are closed under the global context',
@@ -56,7 +61,9 @@ ASSUMPTIONS = ['engines do not share Variable objects; simultaneously suspended 
                'within one engine, a query is only promised to be independent of the writes other suspended queries make to keys '
                'of the fact store it does not touch (theorem C04_same_engine_slots_K; refuted otherwise); the same-engine oracle is '
                'applied under the static counterpart of that condition',
-               'cases in which a match needs a cyclic term (model error code 2) are unspecified and skipped',
+               'cases in which a match needs a cyclic term (model error code 2) are unspecified and skipped (a RecursionError in the run '
+               'alone switches the oracle off, except in the scale family, whose programs build no cyclic terms)',
+               'shared inputs (family SH) contain nothing that belongs to an engine: numbers, strings, Functor objects, pure functions',
                'evaluate_bounded (interpreter-wide recursion limit) is outside the statement']
 CASE_TIMEOUT = 120
 COQ_CHUNK = 25
@@ -84,6 +91,13 @@ def g_op(case, op):
     if k == 'register':
         return '(ORegister %s %s %s)' % (g_str(op[1]), g_option(None if op[2] is None else g_nat(op[2])),
                                           g_list([g_list([g_term(a) for a in r]) for r in op[3]]))
+    if k == 'regshared':
+        f = case['shared']['funcs'][op[3]]
+        ar = shared_arity(f, op[2])
+        return '(ORegister %s %s %s)' % (g_str(op[1]), g_option(None if ar is None else g_nat(ar)),
+                                          g_list([g_list([g_term(a) for a in r]) for r in f['rows']]))
+    if k == 'assertshared':
+        return '(OAssert %s %s %s)' % (g_bool(op[1]), g_str(op[2]), g_list([g_term(a) for a in case['shared']['terms'][op[3]]]))
     if k == 'load':
         return '(OLoad %s %s)' % (g_bool(op[1]), g_script(case['scripts'][op[2]]))
     if k == 'clear':
@@ -186,13 +200,82 @@ class _Dead:
     pass
 DEAD = _Dead()
 
+# ---- inputs shared between engines (round 4).  The SAME Python objects - a function, a tuple of argument terms, a script
+# string - are handed to several engines of one run.  Nothing in them belongs to an engine (no Atom / Variable objects:
+# numbers, strings and Functor objects over them), so the engines must behave as if each had been given its own copy.
+
+def shared_arity(f, style):
+    """the arity register_function(name, func, arity) has to use (None = variable arity) for a shared function spec"""
+    if style == 'variadic':
+        return None
+    if style == 'infer':
+        return {'star': 1, 'first_star': 2}.get(f['sig']) if isinstance(f['sig'], str) else f['sig'][1]
+    return style[1]
+
+class SharedPool:
+    """the shared objects of ONE run (created on first use, then the same object for every engine and thread of that run)"""
+    def __init__(self, case):
+        self.case = case
+        self.funcs = {}
+        self.terms = {}
+        self.lock = threading.Lock()
+    def plain(self, E, t):
+        if t[0] in ('i', 's'):
+            return t[1]
+        if t[0] == 'f':
+            return E.Functor(t[1], [self.plain(E, a) for a in t[2]])
+        raise ValueError('shared inputs contain no atoms or variables: %r' % (t,))
+    def term(self, E, i):
+        with self.lock:
+            if i not in self.terms:
+                self.terms[i] = [self.plain(E, a) for a in self.case['shared']['terms'][i]]
+            return self.terms[i]
+    def func(self, E, i):
+        with self.lock:
+            if i not in self.funcs:
+                self.funcs[i] = self.make(E, self.case['shared']['funcs'][i])
+            return self.funcs[i]
+    def make(self, E, f):
+        import functools
+        rows = [[self.plain(E, a) for a in r] for r in f['rows']]
+        def body(args):
+            for row in rows:
+                for _ in E.unify_arrays(list(args), row):
+                    yield False
+        sig, kind = f['sig'], f.get('kind', 'def')
+        ns = {'body': body}
+        slf = 'self, ' if kind in ('method', 'callable') else ''
+        if sig == 'star':
+            exec('def fn(%s*args):\n  return body(args)\n' % slf, ns)
+        elif sig == 'first_star':
+            exec('def fn(%sfirst, *rest):\n  return body((first,) + rest)\n' % slf, ns)
+        else:
+            ps = ', '.join('a%d' % i for i in range(sig[1]))
+            exec('def fn(%s):\n  return body((%s))\n' % ((slf + ps).rstrip(', '), ps + (',' if sig[1] else '')), ns)
+        fn = ns['fn']
+        if kind == 'method':
+            Preds = type('Preds', (object,), {'pred': fn})
+            self.keep = getattr(self, 'keep', []) + [Preds]
+            return Preds().pred
+        if kind == 'callable':
+            return type('Pred', (object,), {'__call__': fn})()
+        if kind == 'wraps':
+            @functools.wraps(fn)
+            def wrapper(*args, **kwargs):
+                return fn(*args, **kwargs)
+            return wrapper
+        if kind == 'partial':
+            return functools.partial(fn)
+        return fn
+
 class EngineDriver:
     """One engine instance, its user variables and the generators its caller holds."""
-    def __init__(self, case, eid):
+    def __init__(self, case, eid, pool=None):
         from yldprolog import engine as E
         self.E = E
         self.case = case
         self.eid = eid
+        self.pool = pool if pool is not None else SharedPool(case)
         self.yp = E.YP()
         self.vars = {}
         self.gens = {}
@@ -307,6 +390,30 @@ class EngineDriver:
                             yield False
                 yp.register_function(name, fn, arity=-1 if arity is None else arity)
                 return ['ok']
+            if k == 'regshared':
+                _, name, style, fidx = op
+                fn = self.pool.func(E, fidx)
+                if style == 'infer':
+                    yp.register_function(name, fn)
+                elif style == 'variadic':
+                    yp.register_function(name, fn, arity=-1)
+                else:
+                    yp.register_function(name, fn, arity=style[1])
+                return ['ok']
+            if k == 'assertshared':
+                _, append, name, tidx, api = op
+                vals = self.pool.term(E, tidx)
+                if api == 0:
+                    yp.assert_fact(yp.atom(name), vals, append)
+                else:
+                    t = yp.functor(name, vals) if vals else yp.atom(name)
+                    if api == 1:
+                        n = sum(1 for _ in (yp.assertz if append else yp.asserta)(t))
+                    else:
+                        n = sum(1 for _ in yp.query('assertz' if append else 'asserta', [t]))
+                    if n != 1:
+                        return ['assert-answers', n]
+                return ['ok']
             if k == 'load':
                 yp.load_script_from_string(self.case['_compiled'][op[2]], overwrite=op[1])
                 return ['ok']
@@ -381,8 +488,9 @@ def _prepare(case):
 def run_back_to_back(case):
     """all engines in this process, one whole history after the other"""
     out = []
+    pool = SharedPool(case)
     for e in range(case['neng']):
-        d = EngineDriver(case, e)
+        d = EngineDriver(case, e, pool)
         for op in case['hist'][e]:
             d.step(op)
         d.finish()
@@ -405,7 +513,7 @@ def run_alone_fresh(case):
     """every engine alone in a fresh interpreter (no state of any kind can come from another engine)"""
     out = []
     for e in range(case['neng']):
-        small = {'neng': case['neng'], 'scripts': [], '_compiled': case['_compiled'],
+        small = {'neng': case['neng'], 'scripts': [], '_compiled': case['_compiled'], 'shared': case.get('shared'),
                  'hist': [h if k == e else [] for k, h in enumerate(case['hist'])]}
         r = subprocess.run([sys.executable, '-B', '-c', _ALONE_SNIPPET], input=json.dumps({'case': small, 'eid': e}),
                            capture_output=True, text=True, timeout=CASE_TIMEOUT, env=os.environ)
@@ -508,7 +616,8 @@ def run_slots_alone(case):
     return out
 
 def run_interleaved(case):
-    ds = [EngineDriver(case, e) for e in range(case['neng'])]
+    pool = SharedPool(case)
+    ds = [EngineDriver(case, e, pool) for e in range(case['neng'])]
     for e, op in schedule_ops(case):
         ds[e].step(op)
     shared = False
@@ -530,13 +639,14 @@ def run_threads(case):
     run alone), the errors and the number of histories run."""
     jobs = [(e, k) for e in range(case['neng']) for k in range(THREAD_COPIES)]
     barrier = threading.Barrier(len(jobs))
+    pool = SharedPool(case)
     errs = []
     seen = {j: [] for j in jobs}
     def work(j):
         try:
             barrier.wait()
             for _ in range(THREAD_ROUNDS):
-                d = EngineDriver(case, j[0])
+                d = EngineDriver(case, j[0], pool)
                 for op in case['hist'][j[0]]:
                     d.step(op)
                 if not d.finish():
@@ -704,8 +814,11 @@ def oracle(case, io):
         return None
     a, b, c = canon_impl(io['alone']), canon_impl(io['interleaved']), io['threads']
     bb = canon_impl(io['back_to_back'])
-    if any(o and o[0] == 'raised' and o[1] == 'RecursionError' for s in a for o in s):
-        return None            # cyclic term: unspecified
+    if case.get('family') != 'sc' and any(o and o[0] == 'raised' and o[1] == 'RecursionError' for s in a for o in s):
+        # a match built a cyclic term: unspecified.  (Not in the scale family: its programs build no cyclic terms and every
+        # single query stays far below the interpreter's recursion limit, so a RecursionError there is judged like any other
+        # observation - in particular by run (d): the query alone on an engine with the same database must raise it too.)
+        return None
     if a != b:
         return 'an engine observes something else when the engines are interleaved than when it runs alone in a fresh interpreter: ' + _first_diff(b, a)
     if a != bb:
@@ -1147,7 +1260,7 @@ def _peano(n, tail):
         t = ['f', 's', [t]]
     return t
 
-def sc_program(rng):
+def sc_program(rng, ladder=0):
     """the recursive predicates of one scale case (names of its own, never in FACT_PREDS / RULE_PREDS): the script and a
     list of query makers  mk(depth, fresh) -> (name, args, steps)  such that after `steps` answers the generator is suspended
     about `depth` calls deep; fin = the query is finite"""
@@ -1166,6 +1279,15 @@ def sc_program(rng):
         # h(X) :- c(X).                                          (a shallow rule for the probes)
         ['h', 1, [[[v(0)], [['c', [v(0)]]]]]],
     ]
+    # j<i>(X) :- c(X), j<i+1>(X).  ...  j<ladder>(X).     a ladder of `ladder` different predicates: the query j<ladder-d>(X) has
+    # its first answer d calls deep at a cost linear in d (small terms only), and every level keeps two calls alive (j<i>/1 and
+    # the c/1 it iterates) - for cases in which the SUM of the depths of very many suspended generators has to be large
+    for i in range(ladder):
+        script.append(['j%d' % i, 1, [[[v(0)], [['c', [v(0)]], ['j%d' % (i + 1), [v(0)]]]]]])
+    if ladder:
+        script.append(['j%d' % ladder, 1, [[[v(0)], []]]])
+    def q_ladder(d, fresh):
+        return 'j%d' % (ladder - min(d, ladder)), [v(fresh(1)[0])], 1 + rng.choice([0, 0, 0, 1])
     def q_enum(d, fresh):          # answer number i is found i calls deep
         return 'n', [v(fresh(1)[0])], d
     def q_down(d, fresh):          # n(s^d(X)): already the FIRST answer is found d calls deep
@@ -1178,10 +1300,15 @@ def sc_program(rng):
         return 'm', [v(a), v(b), _peano(d + rng.choice([0, 1, 5]), z)], d
     def q_chain(d, fresh):         # walks the chain k(0,1), k(1,2), ..: answer i is i calls deep; finite
         return 'w', [['i', 0], v(fresh(1)[0])], d
-    def pick(dlo, dhi, fresh):
-        # reaching depth d costs one step with q_down and d steps (of growing cost) with the enumerations, which therefore
-        # stay in the lower third of the depth range
-        if rng.random() < 0.45:
+    def q_walk_to(d, fresh):       # w(0, d) over the chain of facts: ONE answer, d calls deep; every level keeps two calls
+        return 'w', [['i', 0], ['i', d]], 1      # alive (w/2 and the k/2 it is iterating): cheap way to a large total depth
+    def pick(dlo, dhi, fresh, cheap=False):
+        # reaching depth d costs one step with q_down / q_walk_to and d steps (of growing cost) with the enumerations, which
+        # therefore stay in the lower third of the depth range (cheap: hardly any enumerations - cases with very many generators)
+        r = rng.random()
+        if cheap:
+            return (q_ladder if (r < 0.92 and ladder) else q_walk_to if r < 0.96 else q_down)(rng.randrange(dlo, dhi + 1), fresh)
+        if r < 0.45:
             return q_down(rng.randrange(dlo, dhi + 1), fresh)
         return rng.choice([q_enum, q_list, q_split, q_chain])(rng.randrange(dlo, dlo + (dhi - dlo) // 3 + 1), fresh)
     return script, pick
@@ -1198,7 +1325,9 @@ def gen_sc_history(rng, case, K, dlo, dhi):
         r = list(range(nextvar[0], nextvar[0] + n))
         nextvar[0] += n
         return r
-    _, pick = case['_sc']
+    _, pick0 = case['_sc']
+    cheap = K >= 60
+    pick = (lambda lo, hi, fr: pick0(lo, hi, fr, True)) if cheap else pick0
     consts = rng.sample(ATOMS, rng.choice([1, 2, 3]))
     for c in consts:
         ops.append(['assert', True, 'c', [['a', c]], rng.randrange(3)])
@@ -1282,7 +1411,7 @@ def gen_sc_case(rng, K, dlo, dhi, model):
     evaluation is the reference - only for small depths; otherwise the reference is the metamorphic oracle: every
     generator observes what it observes when it is the only one on an engine with the same database history)"""
     case = {'neng': 2, 'writes': False, 'family': 'sc', 'K': K, 'depth': [dlo, dhi]}
-    case['_sc'] = sc_program(rng)
+    case['_sc'] = sc_program(rng, ladder=(dhi if K >= 60 else 0))
     case['scripts'] = [case['_sc'][0]]
     h0 = gen_sc_history(rng, case, K, dlo, dhi)
     h1 = gen_sc_history(rng, case, rng.choice([2, 3]), min(dlo, 5), min(dhi, 12))
@@ -1294,6 +1423,128 @@ def gen_sc_case(rng, K, dlo, dhi, model):
         case['light'] = True
     return case
 
+
+# ------------------------------------------------------------------ family SH: the SAME input objects given to several engines
+
+SH_NAMES = ['w', 'g', 't']
+SH_KINDS = ['def', 'def', 'method', 'callable', 'wraps', 'partial']
+
+def rand_plain(rng, depth=1):
+    """a ground term that belongs to no engine: numbers, strings, compound terms over them (no Atom objects)"""
+    r = rng.random()
+    if depth <= 0 or r < 0.6:
+        return ['i', rng.choice([0, 1, 7, 42])] if rng.random() < 0.6 else ['s', rng.choice(['a', 'x y', '', 'blue'])]
+    f, n = rng.choice([('f', 1), ('g', 2), ('f', 2)])
+    return ['f', f, [rand_plain(rng, depth - 1) for _ in range(n)]]
+
+def sh_styles(f):
+    """the registration styles under which every call the harness makes is well defined (a fixed-signature function is only
+    registered under its own arity, a (first, *rest) function never under arity 0 / variable arity)"""
+    if f['sig'] == 'star':
+        return ['infer', 'infer', 'infer', 'variadic', 'variadic', ['explicit', 0], ['explicit', 1], ['explicit', 2], ['explicit', 3]]
+    if f['sig'] == 'first_star':
+        return ['infer', 'infer', 'infer', ['explicit', 1], ['explicit', 2], ['explicit', 3]]
+    return ['infer', 'infer', ['explicit', f['sig'][1]]]
+
+def gen_sh_history(rng, case, eid, nsteps):
+    ops = []
+    nextvar = [0]
+    nslot = [0]
+    def fresh(n):
+        r = list(range(nextvar[0], nextvar[0] + n))
+        nextvar[0] += n
+        return r
+    def probe(name, ar):
+        q = nslot[0] % 3
+        nslot[0] += 1
+        ops.append(['start', q, name, [['v', v] for v in fresh(ar)]])
+        ops.append(['drain', q] if rng.random() < 0.8 else ['next', q])
+    def probe_all(name):
+        for ar in range(4):
+            probe(name, ar)
+    funcs, tms = case['shared']['funcs'], case['shared']['terms']
+    for _ in range(rng.choice([0, 1, 2])):
+        name, ar = rng.choice([('p', 1), ('p', 2), ('q', 1)])
+        ops.append(['assert', True, name, [rand_ground(rng, 1) for _ in range(ar)], rng.randrange(3)])
+    if tms and case.get('sh_common_term') is not None:
+        # the same argument objects go into every engine of the case (each engine then adds / reads on its own)
+        ti = case['sh_common_term']
+        ops.append(['assertshared', rng.random() < 0.7, 'p' if len(tms[ti]) == 1 else rng.choice(['p', 'q']), ti, rng.randrange(3)])
+        if rng.random() < 0.5:
+            probe(ops[-1][2], len(tms[ti]))
+    used = set()
+    n0 = len(ops)
+    while len(ops) - n0 < nsteps:
+        r = rng.random()
+        if r < 0.42 or not used:
+            fi = rng.randrange(len(funcs))
+            name = SH_NAMES[fi % len(SH_NAMES)] if rng.random() < 0.8 else rng.choice(SH_NAMES)
+            ops.append(['regshared', name, rng.choice(sh_styles(funcs[fi])), fi])
+            used.add(name)
+            if rng.random() < 0.6:
+                probe_all(name)
+        elif r < 0.56 and tms:
+            ti = rng.randrange(len(tms))
+            ops.append(['assertshared', rng.random() < 0.7, rng.choice(['p', 'q']), ti, rng.randrange(3)])
+            if rng.random() < 0.4:
+                probe(ops[-1][2], len(tms[ti]))
+        elif r < 0.66 and case['scripts']:
+            ops.append(['load', rng.random() < 0.7, 0])
+        elif r < 0.74:
+            ops.append(['clear'])          # at any moment: between a registration and its probes, with a generator suspended
+        elif r < 0.80:
+            name = rng.choice(SH_NAMES)
+            ar = rng.choice([1, 2])
+            ops.append(['register', name, rng.choice([None, ar]), [[rand_ground(rng, 1) for _ in range(ar)] for _ in range(rng.choice([1, 2]))]])
+            used.add(name)
+        elif r < 0.9:
+            probe_all(rng.choice(sorted(used)))
+        else:
+            name, ar = rng.choice([('p', 1), ('p', 2), ('q', 1), ('q', 2)] + [tuple(k) for k in RULE_PREDS])
+            probe(name, ar)
+    for name in SH_NAMES:
+        if name in used:
+            probe_all(name)
+        else:
+            probe(name, rng.randrange(4))
+    for name, ar in [('p', 1), ('p', 2), ('q', 1), ('q', 2)]:
+        ops.append(['start', 3, name, [['v', v] for v in fresh(ar)]])
+        ops.append(['drain', 3])
+    return ops
+
+def gen_sh_case(rng):
+    neng = rng.choice([2, 3, 3])
+    funcs = []
+    for _ in range(rng.choice([1, 2, 2, 3])):
+        sig = rng.choice(['star', 'star', 'first_star', 'first_star', ['fixed', rng.choice([1, 2, 3])]])
+        if sig == 'star':
+            rows = [[rand_plain(rng) for _ in range(rng.choice([0, 1, 1, 2, 2, 3]))] for _ in range(rng.choice([2, 3, 4]))]
+        elif sig == 'first_star':
+            rows = [[rand_plain(rng) for _ in range(rng.choice([1, 1, 2, 2, 3]))] for _ in range(rng.choice([2, 3, 4]))]
+        else:
+            rows = [[rand_plain(rng) for _ in range(sig[1])] for _ in range(rng.choice([1, 2, 3]))]
+        funcs.append({'sig': sig, 'kind': rng.choice(SH_KINDS), 'rows': rows})
+    tms = [[rand_plain(rng, 2) for _ in range(rng.choice([1, 2]))] for _ in range(rng.choice([1, 2, 3]))]
+    case = {'neng': neng, 'writes': False, 'family': 'sh', 'scripts': [gen_script(rng)], 'shared': {'funcs': funcs, 'terms': tms}}
+    case['sh_common_term'] = rng.randrange(len(tms)) if rng.random() < 0.5 else None
+    case['hist'] = [gen_sh_history(rng, case, e, rng.choice([4, 6, 8, 12])) for e in range(neng)]
+    case['sched'] = gen_schedule(rng, [len(h) for h in case['hist']])
+    return case
+
+def shared_profile(case):
+    """(function objects registered on >= 2 engines, of these: under different effective arities, argument tuples asserted
+    into >= 2 engines)"""
+    regs, asserts = {}, {}
+    for e, h in enumerate(case['hist']):
+        for op in h:
+            if op[0] == 'regshared':
+                regs.setdefault(op[3], {}).setdefault(e, set()).add(json.dumps(op[2]))
+            if op[0] == 'assertshared':
+                asserts.setdefault(op[3], set()).add(e)
+    multi = [f for f, per in regs.items() if len(per) >= 2]
+    mixed = [f for f in multi if len(set().union(*regs[f].values())) >= 2]
+    return len(multi), len(mixed), sum(1 for es in asserts.values() if len(es) >= 2)
+
 def gen(rng, tier):
     quick = tier == 'quick'
     n = 225 if quick else 2600
@@ -1304,11 +1555,18 @@ def gen(rng, tier):
     mini = [gen_sc_case(r2, r2.choice([3, 5, 8]), 2, r2.choice([6, 10, 14]), True) for _ in range(6 if quick else 40)]
     ks = [5, 20, 20, 40] if quick else [5, 5, 20, 20, 20, 40, 40, 40, 20, 5, 40, 20]
     full = [gen_sc_case(r2, k, 100, 200, False) for k in ks]
+    # round 4 (own random streams again): the same function / term / script objects given to several engines, and scale
+    # cases in which the SUM of the depths of the suspended generators is large (K x depth calls alive at once)
+    r3 = random.Random(r2.random())
+    sh = [gen_sh_case(r3) for _ in range(30 if quick else 400)]
+    r4 = random.Random(r3.random())
+    full += [gen_sc_case(r4, k, lo, hi, False) for k, lo, hi in ([(150, 200, 250)] if quick else [(150, 200, 250), (100, 150, 250), (250, 150, 200), (400, 60, 120)])]
     if quick:
         # one case of medium depth, still inside what the Coq model evaluates in seconds
         mini.append(gen_sc_case(r2, 5, 8, 24, True))
     # the expensive cases are spread over the list (the implementation runs in chunks of consecutive cases)
-    extra = nl + mini
+    extra = nl + mini + sh
+    r3.shuffle(extra)
     step = max(1, len(cases) // (len(extra) + 1))
     for i, c in enumerate(extra):
         cases.insert(min(len(cases), (i + 1) * step + i), c)
@@ -1453,6 +1711,8 @@ def nontrivial(case, io):
         return any(st >= 3 and ev >= 1 for st, ev in map(nonlifo_profile, case['hist']))
     if case.get('family') == 'sc':
         return _suspended_profile(case) >= 3
+    if case.get('family') == 'sh':
+        return shared_profile(case)[1] >= 1 or shared_profile(case)[2] >= 1
     return differ and _suspended_profile(case) >= 2
 
 def describe(case):
@@ -1470,6 +1730,14 @@ def describe(case):
             return 'register %s/%s rows=%d' % (op[1], op[2], len(op[3]))
         if k == 'load':
             return 'load script %d (overwrite=%s)' % (op[2], op[1])
+        if k == 'regshared':
+            f = case['shared']['funcs'][op[3]]
+            return 'register_function(%s, SHARED function object #%d [%s, signature %s, %d rows], arity=%s)' % (
+                op[1], op[3], f.get('kind', 'def'), f['sig'], len(f['rows']),
+                {'infer': 'None', 'variadic': '-1'}.get(op[2]) if isinstance(op[2], str) else op[2][1])
+        if k == 'assertshared':
+            return '%s %s(SHARED argument objects #%d: %s)' % ('assertz' if op[1] else 'asserta', op[2], op[3],
+                                                               ','.join(st(a) for a in case['shared']['terms'][op[3]]))
         return ' '.join(str(x) for x in op)
     return {'scripts': [pl_script(s) for s in case['scripts']],
             'schedule': ['engine %d: %s' % (e, sop(op)) for e, op in schedule_ops(case)]}
@@ -1542,6 +1810,8 @@ def distribution(cases, obs):
          'cases_with_writing_bodies_loaded': 0, 'db_goals_in_loaded_bodies': 0, 'queries_on_db_builtins': 0,
          'families': {}, 'model_by_family[compared,cyclic,fuel]': MODEL_BY_FAMILY,
          'nl_histories_with_nonlifo_restart_on_one_predicate': 0, 'nl_nonlifo_events': 0, 'nl_facts_with_variables': 0,
+         'sh_function_objects_registered_on_several_engines': 0, 'sh_of_these_under_different_styles': 0,
+         'sh_argument_objects_asserted_into_several_engines': 0, 'sh_registrations[kind sig style]': {},
          'sc_cases[K,depth,max_suspended,model]': [], 'sc_cases_with_an_exception': 0, 'sc_note': 'scale cases with depth 100-200 are not evaluated by the Coq model '
          '(unification fuel 300 / time); their reference is the metamorphic oracle: every generator observes what it observes '
          'as the only generator on an engine with the same database history (run d), plus fresh-alone = interleaved'}
@@ -1554,6 +1824,17 @@ def distribution(cases, obs):
                 d['nl_histories_with_nonlifo_restart_on_one_predicate'] += 1 if (st >= 3 and ev) else 0
                 d['nl_nonlifo_events'] += ev
                 d['nl_facts_with_variables'] += sum(1 for op in h if op[0] == 'assert' and any(_has_var(a) for a in op[3]))
+        if fam == 'sh':
+            a_, b_, c_ = shared_profile(c)
+            d['sh_function_objects_registered_on_several_engines'] += a_
+            d['sh_of_these_under_different_styles'] += b_
+            d['sh_argument_objects_asserted_into_several_engines'] += c_
+            for h in c['hist']:
+                for op in h:
+                    if op[0] == 'regshared':
+                        f = c['shared']['funcs'][op[3]]
+                        kk = '%s %s %s' % (f.get('kind', 'def'), f['sig'] if isinstance(f['sig'], str) else 'fixed', op[2] if isinstance(op[2], str) else 'explicit')
+                        d['sh_registrations[kind sig style]'][kk] = d['sh_registrations[kind sig style]'].get(kk, 0) + 1
         if fam == 'sc':
             d['sc_cases[K,depth,max_suspended,model]'].append([c['K'], c['depth'], _suspended_profile(c), not c.get('nomodel')])
             if isinstance(o, dict) and any(x[0] == 'raised' for run in o['interleaved'] for x in run):
